@@ -57,8 +57,8 @@ def run(ctx):
             dom = int_domain(leaf, 16 if not quick else 8)
             if dom is None:
                 if leaf["k"] in ("VarInt", "ZigZag"):
-                    top = (1 << 14) if quick else (1 << 21)
-                    step = 1 if quick else 5
+                    top = (1 << 14) if quick else (1 << 18)
+                    step = 1 if quick else 3
                     dom = list(range(-2 if leaf["k"] == "VarInt" else -top // 2, top, step)) + [2**k2 + d for k2 in (21, 28, 35, 56, 63, 64, 70, 127) for d in (-1, 0, 1)]
                     if leaf["k"] == "ZigZag":
                         dom += [-(2**k2) + d for k2 in (21, 35, 63, 64, 70) for d in (-1, 0, 1)]
@@ -68,6 +68,12 @@ def run(ctx):
                     dom = list(gen.FLOATS) + [1, 0, -3, 2**24 + 1, True, None, "x"]
             if quick and len(dom) > 700:
                 dom = rng.sample(dom, 600) + dom[:40] + dom[-40:]
+            elif not quick and len(dom) > 9000:
+                # exhaustive 16-bit domains through one big-endian unsigned and one little-endian signed spelling; the other
+                # spellings of the same codec get the edges and a sample (the TLA+ codecs themselves are exhaustive in MC_Codecs)
+                full = leaf.get("name") in ("Int16ub", "Int16sl") or leaf["k"] in ("VarInt", "ZigZag")
+                if not full:
+                    dom = rng.sample(dom, 5000) + dom[:300] + dom[-300:]
             for v in dom:
                 camp.roundtrip_from_value(leaf, con, v, {}, clauses=())
                 camp.sh.maybe_flush()
